@@ -350,3 +350,142 @@ def filtered_loops_to_if(tree):
                 node._was_filtered = True
                 n += 1
     return n
+
+
+_NEG = {ast.Eq: ast.NotEq, ast.NotEq: ast.Eq, ast.Lt: ast.GtE, ast.GtE: ast.Lt, ast.Gt: ast.LtE, ast.LtE: ast.Gt,
+        ast.In: ast.NotIn, ast.NotIn: ast.In, ast.Is: ast.IsNot, ast.IsNot: ast.Is}
+
+
+def negate(test):
+    """the negation of a test, pushed into a single comparison / through `not`; otherwise wrapped in `not`"""
+    if isinstance(test, ast.UnaryOp) and isinstance(test.op, ast.Not):
+        return test.operand
+    if isinstance(test, ast.Compare) and len(test.ops) == 1 and type(test.ops[0]) in _NEG:
+        return ast.copy_location(ast.Compare(left=test.left, ops=[_NEG[type(test.ops[0])]()], comparators=test.comparators), test)
+    return ast.copy_location(ast.UnaryOp(op=ast.Not(), operand=test), test)
+
+
+def guard_continue_to_if(tree):
+    """in a loop body, `if c: continue` followed by REST  ==>  `if not c: REST` (the guard-clause spelling of a filtered loop body)"""
+    n = 0
+    changed = True
+    while changed:
+        changed = False
+        for loop in [x for x in ast.walk(tree) if isinstance(x, (ast.For, ast.While))]:
+            blocks = [loop.body]
+            # also inside an `if` that is the whole loop body (after a first rewrite)
+            for b in blocks:
+                for i, st in enumerate(b):
+                    if isinstance(st, ast.If) and not st.orelse and len(st.body) == 1 and isinstance(st.body[0], ast.Continue) and i + 1 < len(b):
+                        rest = b[i + 1:]
+                        if any(isinstance(x, ast.Continue) and _loop_of(x, loop) for r in rest for x in ast.walk(r) if False):
+                            continue
+                        new = ast.copy_location(ast.If(test=negate(st.test), body=rest, orelse=[]), st)
+                        b[i:] = [new]
+                        n += 1
+                        changed = True
+                        break
+                if changed:
+                    break
+            if changed:
+                break
+    return n
+
+
+def _loop_of(node, loop):
+    return True
+
+
+IMMUTABLE_ATTRS = ('cid', 'name', 'order', 'tieOrder', 'nick', 'nSeats', 'nBallots', 'nCand', 'multiplier')
+
+
+def _stable_expr(e):
+    """an expression whose value cannot change during a count: constants, and attribute paths ending in an immutable attribute"""
+    if isinstance(e, ast.Constant):
+        return True
+    if isinstance(e, ast.Attribute) and e.attr in IMMUTABLE_ATTRS and isinstance(e.value, (ast.Name, ast.Attribute)):
+        return True
+    if isinstance(e, ast.BinOp) and isinstance(e.op, (ast.Add, ast.Sub)):
+        return _stable_expr(e.left) and _stable_expr(e.right)
+    return False
+
+
+def substitute_stable_locals(tree):
+    """a local defined ONCE as a stable expression (`cid = candidate.cid`, `divisor = E.nSeats + 1`) is replaced by that expression at
+    its uses, and the definition dropped - provided every name in the expression is itself bound at most once in the function
+    (so the expression means the same at the use as at the definition)"""
+    n = 0
+    for fn in [x for x in ast.walk(tree) if isinstance(x, (ast.FunctionDef, ast.AsyncFunctionDef))]:
+        stores = {}
+        for x in _own_walk(fn):
+            if isinstance(x, ast.Name) and isinstance(x.ctx, (ast.Store, ast.Del)):
+                stores.setdefault(x.id, []).append(x)
+            if isinstance(x, (ast.ListComp, ast.GeneratorExp, ast.SetComp, ast.DictComp)):
+                for g in x.generators:
+                    for t in ast.walk(g.target):
+                        if isinstance(t, ast.Name):
+                            stores.setdefault(t.id, []).append(t)
+        params = set(_params(fn))
+        for st in [x for x in _own_walk(fn) if isinstance(x, ast.Assign)]:
+            if len(st.targets) != 1 or not isinstance(st.targets[0], ast.Name):
+                continue
+            nm = st.targets[0].id
+            if len(stores.get(nm, [])) != 1 or nm in params or not _stable_expr(st.value) or isinstance(st.value, ast.Constant):
+                continue
+            # the names the expression reads: parameters or locals of an enclosing scope / loop variables bound once
+            reads = [x.id for x in ast.walk(st.value) if isinstance(x, ast.Name)]
+            if any(len(stores.get(r, [])) > 1 for r in reads):
+                continue
+            # used in nested functions? then leave
+            if any(isinstance(x, ast.Name) and x.id == nm for g in ast.walk(fn) if isinstance(g, (ast.FunctionDef, ast.Lambda)) and g is not fn for x in ast.walk(g)):
+                continue
+            sub = _Subst({nm: st.value}, {})
+            for blk, i in _blocks_containing(fn, st):
+                pass
+            loc = _locate(fn, st)
+            if loc is None:
+                continue
+            blk, i = loc
+            for other in list(_own_walk_stmts(fn)):
+                if other is st:
+                    continue
+                _subst_in_stmt(other, sub)
+            blk[i:i + 1] = [] if len(blk) > 1 else [ast.copy_location(ast.Pass(), st)]
+            n += 1
+    return n
+
+
+def _blocks_containing(fn, st):
+    return []
+
+
+def _locate(fn, st):
+    for node in ast.walk(fn):
+        for fld in ('body', 'orelse', 'finalbody'):
+            b = getattr(node, fld, None)
+            if isinstance(b, list):
+                for i, s in enumerate(b):
+                    if s is st:
+                        return b, i
+    return None
+
+
+def _own_walk_stmts(fn):
+    for x in _own_walk(fn):
+        if isinstance(x, ast.stmt):
+            yield x
+
+
+def _subst_in_stmt(st, sub):
+    """substitute in the expressions held directly by this statement (not in nested statements: they are visited on their own)"""
+    for fld, val in ast.iter_fields(st):
+        if isinstance(val, ast.expr):
+            setattr(st, fld, sub.visit(val))
+        elif isinstance(val, list):
+            for k, v in enumerate(val):
+                if isinstance(v, ast.expr):
+                    val[k] = sub.visit(v)
+                elif isinstance(v, ast.withitem):
+                    v.context_expr = sub.visit(v.context_expr)
+                elif isinstance(v, ast.keyword):
+                    v.value = sub.visit(v.value)
